@@ -6,7 +6,7 @@
 Outcome: dict(violation=None|{cls,msg,attrs,step}, digest, nontrivial, stats, extra)
 """
 from ..common import rng_for, digest, canon, tuplify, same, plain
-from .model import Spec, Model, path_str
+from .model import Spec, Model, path_str, step_kind
 from .gen import swarm_config, gen_spec, HistoryGen
 from .execute import Exec, Violation, PROPAGATING
 
@@ -25,6 +25,7 @@ def case_from_json(j):
 
 
 def gen_history_case(ctx, run, prop, **over):
+    over_frozen = over.pop("frozen_windows", False)
     rc = rng_for(ctx.seed, prop, run, "cfg")
     cfg = swarm_config(rc, ctx.tier, **over)
     cfg["nplit"] = rc.random() < 0.2       # numpy scalars as literals inside expressions
@@ -34,7 +35,31 @@ def gen_history_case(ctx, run, prop, **over):
     spec = gen_spec(rng_for(ctx.seed, prop, run, "spec"), cfg)
     hg = HistoryGen(rng_for(ctx.seed, prop, run, "ops"), cfg, spec)
     ops = hg.history()
+    if over_frozen and rc.random() < 0.35 and len(ops) >= 6:
+        ops = add_frozen_windows(rng_for(ctx.seed, prop, run, "frozen"), ops)
     return {"cfg": cfg, "spec": spec.to_json(), "ops": ops}
+
+
+def add_frozen_windows(r, ops):
+    """Two stretches of the history run on a frozen manager (freeze_tree ... unfreeze_tree): there only the plain
+    value assignments are carried out (the others are skipped by the executor), and they must propagate as ever.
+    The second window repeats assignments of the first one with new values - the same location is assigned on a
+    frozen manager before and after the graph was edited in between."""
+    ops = list(ops)
+    n = len(ops)
+    a = r.randint(0, n - 4)
+    b = min(n - 2, a + r.randint(1, 4))
+    c = min(n - 1, b + r.randint(1, 4))
+    d = min(n, c + r.randint(1, 4))
+    rep = []
+    for o in ops[a:b]:
+        if o[0] == "setv" and r.random() < 0.8:
+            v = o[2]
+            v2 = (v + r.choice([1, 2, -1])) if isinstance(v, int) and not isinstance(v, bool) else \
+                (round(v + r.choice([0.5, 1.0, -2.0]), 3) if isinstance(v, float) else v)
+            rep.append(("setv", o[1], v2) + tuple(o[3:]))
+    out = ops[:a] + [("freeze",)] + ops[a:b] + [("unfreeze",)] + ops[b:c] + [("freeze",)] + rep + ops[c:d] + [("unfreeze",)] + ops[d:]
+    return out
 
 
 # ---------------------------------------------------------------------------
@@ -49,7 +74,7 @@ class C01:
             return gen_chain_case(ctx, run, "C01")      # 2.5 % of the runs: chains of 1000+ dependants
         if run % 200 == 13:
             return gen_collide_case(ctx, run, "C01")    # 0.5 %: two task ids with colliding hashes
-        return gen_history_case(ctx, run, "C01")
+        return gen_history_case(ctx, run, "C01", frozen_windows=True)
 
     @staticmethod
     def execute(ctx, case, prop="C01", check_trace=False, check_contents=True):
@@ -67,7 +92,17 @@ class C01:
         inter = []
         i = -1
         try:
+            frozen = False
             for i, op in enumerate(case["ops"]):
+                if op[0] in ("freeze", "unfreeze"):
+                    frozen = op[0] == "freeze"
+                    (ex.world.mgr.freeze_tree if frozen else ex.world.mgr.unfreeze_tree)()
+                    ex.count("fault:freeze" if frozen else "unfreeze")
+                    continue
+                if frozen:
+                    if classify_frozen(ex.model, op) != "plain":
+                        continue            # would change the graph: C17's business
+                    ex.count("plain_assignments_while_frozen")
                 st = ex.step(op)
                 if st is None:
                     continue
@@ -127,7 +162,7 @@ class C02(C01):
             return gen_cyclic_case(ctx, run, "C02")     # 10 % of the runs: mutually dependent function tasks
         if run % 80 == 9:
             return gen_chain_case(ctx, run, "C02")
-        return gen_history_case(ctx, run, "C02")
+        return gen_history_case(ctx, run, "C02", frozen_windows=True)
 
     @staticmethod
     def execute(ctx, case):
@@ -159,7 +194,14 @@ class C03:
             cfg["max_depth"] = rc.choice([2, 3])      # nested targets are where the indices get interesting
         spec = gen_spec(rng_for(ctx.seed, "C03", run, "spec"), cfg)
         hg = HistoryGen(rng_for(ctx.seed, "C03", run, "ops"), cfg, spec)
-        return {"cfg": cfg, "spec": spec.to_json(), "ops": hg.history()}
+        ops = hg.history()
+        # assignments of an expression that cannot be evaluated (it reads a key that does not exist): the call raises;
+        # whatever survives of it, the next plain assignment to the same location must leave no trace of it
+        rm = rng_for(ctx.seed, "C03", run, "failed")
+        if rm.random() < 0.5:
+            ops = insert_markers(rm, ops, lambda r: ("failsete", r.randrange(1000), r.randrange(1000), r.choice([True, False]),
+                                                     round(r.uniform(-5, 5), 2), r.randint(-5, 5), r.choice(["item", "mgr"])), 1, 2)
+        return {"cfg": cfg, "spec": spec.to_json(), "ops": ops}
 
     @staticmethod
     def execute(ctx, case):
@@ -174,6 +216,36 @@ class C03:
         try:
             twin = O.build_fresh_twin(World, xd, spec, ex.model, ex.world, cfg["salt"])
             for i, op in enumerate(case["ops"]):
+                if op[0] == "failsete":
+                    m = ex.model
+                    free = [l for l in spec.leaves if l not in m.ft_target and l not in m.kn_target]
+                    if not free:
+                        continue
+                    tgt = free[op[1] % len(free)]
+                    other = spec.leaves[op[2] % len(spec.leaves)]
+                    follow = ("setv", tgt, op[4] if spec.leaf_type[tgt] == "f" else op[5], op[6])
+                    try:
+                        model_step(ex.model.clone(), follow, ex.g_restricted)
+                    except ModelReject:
+                        continue
+                    missing = (tgt[0], (step_kind(spec.root_mode[tgt[0]][1]), "nokey%s" % cfg["salt"]))
+                    bad = ("bin", "+", ("ref", other), ("ref", missing)) if op[3] else ("bin", "*", ("ref", missing), ("ref", other))
+                    mgr = ex.world.mgr
+                    tr, exc = run_traced(lambda: ex.world._assign(tgt, ex.world.build(bad), op[6]))
+                    if isinstance(exc, SimStall):
+                        raise exc
+                    where = "after the failed assignment of %s to %s before op %d" % (ex.world.build(bad), path_str(tgt), i)
+                    if exc is None:
+                        raise Violation(prop + ".harness", "%s: the assignment did not raise" % where)
+                    ex.count("fault:assignment_of_unevaluable_expression")
+                    d = O.diff_support(O.support(mgr), O.support_from_tasks(mgr.tasks.values()))
+                    if d:
+                        raise Violation(prop + ".index", "%s: index vs derivation from the registered tasks: %s" % (where, d))
+                    tr, exc = run_traced(lambda: mgr.verify())
+                    if exc is not None:
+                        raise Violation(prop + ".verify", "%s: verify() raised %s: %s" % (where, type(exc).__name__, exc))
+                    # the plain assignment that follows is an ordinary op of the history (for the fresh twin: the only one)
+                    op = follow
                 st = ex.step(op)
                 if st is None:
                     continue
